@@ -21,6 +21,8 @@ use std::{
 pub enum Sel {
     Idx(usize),
     Query(String),
+    /// the FIRST time this query is asked in the evaluation only (a transient fault)
+    QueryOnce(String),
 }
 
 /// fault kind `Z`: the answer is the normal one, but it comes after this many milliseconds
@@ -37,6 +39,8 @@ pub struct FakeState {
     /// fault kind `X`: from that query on the server answers everything with a line that is not an
     /// IRRd response at all (a rate limiter's banner)
     pub bad: bool,
+    /// `QueryOnce` selectors that have fired
+    pub fired: Vec<String>,
 }
 
 impl FakeState {
@@ -45,14 +49,22 @@ impl FakeState {
         self.faults = faults;
         self.rel = 0;
         self.bad = false;
+        self.fired.clear();
     }
     fn answer(&mut self, line: &str) -> Vec<u8> {
         let i = self.rel;
         self.rel += 1;
+        let fired = self.fired.clone();
         let fault = self.faults.iter().find(|(s, _)| match s {
             Sel::Idx(j) => *j == i,
             Sel::Query(q) => q == line,
+            Sel::QueryOnce(q) => q == line && !fired.contains(q),
         });
+        let fault = fault.cloned();
+        if let Some((Sel::QueryOnce(q), _)) = &fault {
+            self.fired.push(q.clone());
+        }
+        let fault = fault.as_ref();
         if matches!(fault, Some((_, 'X'))) {
             self.bad = true;
         }
